@@ -35,6 +35,7 @@ REQUIRED = {
     "const_unsorted_histories": 100,
     "const_single_visit_histories": 50,
     "const_nonpositive_time_histories": 50,
+    "const_estimates_with_parameters_in_another_key_order": 50,
     "const_feature_entirely_missing": 50,
     "const_estimate_rows": 2000,
     "lme_cohorts_judged_vs_statsmodels": 16,
@@ -326,8 +327,18 @@ def _run_const(spec, ctx):
                         ages = np.concatenate([ages, ages[: int(rng.integers(1, 3))]])  # repeated
                     ages = ages[rng.permutation(len(ages))]
                     req[sid] = ages.tolist() if rng.random() < 0.5 else ages
+            ip_used = ip
+            if len(feats) >= 2 and (i + len(req)) % 2:
+                # the same individual parameters held by a container that was filled from dicts written in another feature order
+                from leaspy.io.outputs.individual_parameters import IndividualParameters as _IP
+
+                ip_used = _IP()
+                for sid_ in ip._indices:
+                    d_ = ip[sid_]
+                    ip_used.add_individual_parameters(sid_, {f_: d_[f_] for f_ in reversed(list(d_))})
+                ctx.count("const_estimates_with_parameters_in_another_key_order")
             try:
-                est = model.estimate(dict(req), ip)
+                est = model.estimate(dict(req), ip_used)
             except Exception as e:
                 ctx.violation(f"constant.estimate/raises:{type(e).__name__}", f"estimate raised {e!r}", dict(case, ptype=ptype),
                               request={k: list(map(float, x)) for k, x in req.items()})
